@@ -29,6 +29,10 @@ type c07Case struct {
 	TLS       string   `json:"tls"`  // sub only: "" | auto | static
 	Translate bool     `json:"translate"`
 	Ests      []c07Est `json:"ests"`
+	// Burst > 0: in addition, this many establishments whose accept and dial are issued at the same
+	// instant (ids 1000.., alternating direction): the connection info reaches the dialling side just
+	// as Dial starts to wait for it
+	Burst int `json:"burst,omitempty"`
 }
 
 func c07GenEsts(t *rapid.T, maxK int) []c07Est {
@@ -59,6 +63,9 @@ func c07GenEsts(t *rapid.T, maxK int) []c07Est {
 func c07Gen(t *rapid.T) any {
 	c := &c07Case{Mode: "ip"}
 	c.Ests = c07GenEsts(t, 6)
+	if pct(t, "burst", 20) {
+		c.Burst = 50 + uniform(t, "burstn", 250)
+	}
 	return c
 }
 
@@ -172,7 +179,15 @@ func c07Run(ci any) (out Outcome) {
 		plug.cleanup()
 		p.close()
 	}()
-	runEsts(&out, host, plug, c.Ests)
+	ests := c.Ests
+	if c.Burst > 0 {
+		out.label("burst")
+		ests = append([]c07Est{}, c.Ests...)
+		for i := 0; i < c.Burst; i++ {
+			ests = append(ests, c07Est{ID: uint32(1000 + i), HostAccepts: i%2 == 0, AcceptAt: 1, DialAt: 1})
+		}
+	}
+	runEsts(&out, host, plug, ests)
 	return
 }
 
